@@ -209,7 +209,7 @@ def start_route_p(run, tier):
     timeout = 60 if tier == "quick" else 300
 
     def work():
-        box["res"] = chx.run_many(groups, timeout, jobs=5)
+        box["res"] = chx.run_many(groups, timeout, jobs=8)
 
     th = threading.Thread(target=work, daemon=True)
     th.start()
